@@ -526,19 +526,18 @@ pub fn gen_readonly(seed: u64) -> Scenario {
         ops.push(Op::Close);
         return Scenario { seed, env, ops, fault: Default::default(), fault_ops: vec![], post: None, medium: None, knobs: Default::default() };
     }
-    let big = variant == 3 && seed % 4 == 1;
+    let big = variant == 3;
     let mut r = Rng::new(seed, "readonly");
     let mut s = gen_corpus(seed, &CorpusCfg { max_docs: 12, with_vec: true, with_images: false, mutate: true });
     // cut the corpus scenario before its closing battery and append our own ending
     let cut = s.ops.iter().rposition(|o| matches!(o, Op::Check)).unwrap_or(s.ops.len());
     let bat: Vec<Op> = s.ops[..cut].iter().filter(|o| matches!(o, Op::Search(_) | Op::Timeline(_) | Op::SearchVec { .. })).take(10).cloned().collect();
     s.ops.truncate(cut);
-    if big {
-        // one incompressible payload that pushes the file beyond the 16 MiB footer-scan window
-        let mut p = PutSpec { pay: Some(Pay::new(PK::Bin, 17 * 1024 * 1024, seed ^ 0xB16)), ts: Some(-5), ..Default::default() };
-        p.uri = Some("mv2://big/0".to_string());
-        s.ops.push(Op::Put(p));
-        s.ops.push(Op::Commit);
+    if big && matches!(s.ops.first(), Some(Op::Create)) {
+        // a log region pre-sized to 17 MiB pushes the file beyond the 16 MiB footer-scan window
+        // (much cheaper than a 17 MiB payload, which would double the log nine times)
+        s.ops.insert(1, Op::BeginBatch(BatchSpec { compression_level: 3, disable_auto_checkpoint: false, skip_sync: false, wal_pre_size: 17 << 20 }));
+        s.ops.insert(2, Op::EndBatch);
     }
     // leave some records pending in the log
     for k in 0..r.range(0, 3) {
@@ -722,5 +721,14 @@ pub fn gen_two_writers(seed: u64, max_ops: usize) -> Scenario {
         }
     }
     s.ops = ops;
+    if r.chance(1, 4) {
+        // ends closed: two read-only handles then contend for the writer role
+        if !matches!(s.ops.last(), Some(Op::Close)) {
+            s.ops.push(Op::Close);
+        }
+        let n = r.range(3, 8);
+        let steps: Vec<(u8, u8)> = (0..n).map(|_| (r.below(2) as u8, *r.pickv(&[0u8, 0, 0, 1, 2]))).collect();
+        s.ops.push(Op::RoContend { steps });
+    }
     s
 }
